@@ -29,15 +29,27 @@ let () =
     | id :: enc :: ver :: rest when String.length id > 0 && id.[0] <> '#' ->
         (try
           let v11 = (ver = "1.1") in
-          let rest = (match rest with "-L" :: r -> r | r -> r) in
-          let r = match enc with
+          let indent = ref (-1) in
+          let rec flags r = match r with
+            | "-L" :: r' -> flags r'
+            | f :: r' when String.length f > 2 && String.sub f 0 2 = "-I" ->
+                indent := int_of_string (String.sub f 2 (String.length f - 2)); flags r'
+            | _ -> r in
+          let rest = flags rest in
+          let family = match enc with
+            | "UTF-8" -> fam_of EncUtf8 | "UTF-16" -> fam_of EncUtf16
+            | "ISO-8859-1" -> fam_of EncLatin1 | "US-ASCII" -> fam_of EncAscii
+            (* transcoder-backed writer, every code point representable *)
+            | "UTF-32" | "UTF8" -> fam_other rep_all
+            | _ -> failwith "encoding" in
+          let r =
+            if !indent >= 0 then serialize_indent_fast family v11 (ascii enc) (n_of_int !indent) (events rest)
+            else match enc with
             | "UTF-8" -> serialize_fast EncUtf8 v11 (ascii ver) (ascii enc) (events rest)
             | "UTF-16" -> serialize_fast EncUtf16 v11 (ascii ver) (ascii enc) (events rest)
             | "ISO-8859-1" -> serialize_fast EncLatin1 v11 (ascii ver) (ascii enc) (events rest)
             | "US-ASCII" -> serialize_fast EncAscii v11 (ascii ver) (ascii enc) (events rest)
-            (* transcoder-backed writer, every code point representable *)
-            | "UTF-32" | "UTF8" -> serialize_other_fast rep_all v11 (ascii ver) (ascii enc) (events rest)
-            | _ -> failwith "encoding" in
+            | _ -> serialize_other_fast rep_all v11 (ascii ver) (ascii enc) (events rest) in
           (match r with
            | Ok l -> Printf.printf "%s ok %s\n" id (token_of_u16 l)
            | Oob -> Printf.printf "%s oob\n" id
